@@ -492,7 +492,7 @@ def turns_mc(workdir, name, ops, switches=None, invariants=("InvCore", "InvRest"
 
 
 REPAIRED = dict(DeleteDrainsMailbox=True, ClosedMeansNotFound=True, PullWatchesDeleted=True, AttachDetached=True,
-                PullHandsOnWakeup=True, SecondDeleteWaits=True,
+                PullHandsOnWakeup=True, SecondDeleteWaits=True, ExitDrainsGranted=True,
                 NoRenotifyAfterPartialPull=False, SignalCreatedAfterPull=False, PostDoesNotNotify=False)
 
 
